@@ -16,8 +16,15 @@ func hReads(N, L int, kinds []base.InternalKeyKind) {
 	n := 1 + sym.Choose("n", N)
 	h := hHistory(n, kinds)
 	hPlace(h, L)
+	if hUseLevelIter {
+		hNoRangeDelAtBottom(h, L)
+	}
 	readSeq := base.SeqNum(sym.Range("readSeq", 1, n+1))
-	it := hNewIterator(hBuildLevels(h, L), readSeq, nil)
+	levels := hBuildLevels(h, L)
+	if hUseMemtable {
+		hMemtableLevel(h, levels)
+	}
+	it := hNewIterator(levels, readSeq, nil)
 
 	var fwd []hOut
 	for valid := it.First(); valid; valid = it.Next() {
@@ -68,3 +75,14 @@ func VerifHarness_C01_Reads() { hReads(3, 2, hPointAndRangeKinds) }
 func VerifHarness_C01_ReadsCompactedKinds() { hReads(3, 2, hCompactedKinds) }
 
 func VerifHarness_C01_Reads_Thorough() { hReads(4, 3, hAllKinds) }
+
+// the bottom level is the real levelIter over two files
+func VerifHarness_C01_ReadsLevelIter() {
+	hUseLevelIter = true
+	hReads(2, 2, []base.InternalKeyKind{hKSet, hKDel, hKMerge, hKRDel})
+}
+
+func VerifHarness_C01_ReadsLevelIter3_Thorough() {
+	hUseLevelIter = true
+	hReads(3, 2, []base.InternalKeyKind{hKSet, hKDel, hKMerge, hKRDel})
+}
